@@ -291,6 +291,8 @@ pub enum Valuation {
     Generic,
     /// the dyadic valuation with inputs scaled by 2^-20 (parameters unchanged)
     Tiny,
+    /// inputs and parameters from {-1, 0, 1}: ties, duplicates, exact zeros everywhere
+    Dup,
 }
 
 pub fn input_values(v: Valuation, n: usize, seed: u64, key: &str) -> Vec<f32> {
@@ -299,6 +301,7 @@ pub fn input_values(v: Valuation, n: usize, seed: u64, key: &str) -> Vec<f32> {
         Valuation::Ints => (0..n).map(|i| (i + 1) as f32).collect(),
         Valuation::Dyadic => (0..n).map(|_| (r.below(9) as f32 - 4.0) / 2.0).collect(),
         Valuation::Tiny => (0..n).map(|_| (r.below(9) as f32 - 4.0) / 2.0 * 9.536_743e-7).collect(),
+        Valuation::Dup => (0..n).map(|_| r.below(3) as f32 - 1.0).collect(),
         Valuation::Generic => (0..n).map(|_| r.signed(0.25, 1.5)).collect(),
     }
 }
@@ -322,6 +325,7 @@ pub fn params_for(net: &Net, shapes: &[LShape], v: Valuation, seed: u64, key: &s
             })
             .collect(),
         Valuation::Dyadic | Valuation::Tiny => (0..n).map(|_| (r.below(9) as f32 - 4.0) / 4.0).collect(),
+        Valuation::Dup => (0..n).map(|_| r.below(3) as f32 - 1.0).collect(),
         Valuation::Generic => (0..n).map(|_| r.signed(0.25, 1.5)).collect(),
     })
 }
